@@ -172,7 +172,8 @@ typedef struct {
 	int *nsub;                         /* how many times ESI i was submitted through decode_with_new_symbol */
 	void **enc_tab;                    /* encoder: table handed to build_repair_symbol */
 	int *enc_libslot;                  /* encoder: slot was allocated by the library */
-	int cbmode;                        /* 0 none,1 buf,2 null,3 mix */
+	int cbmode;                        /* 0 none,1 buf,2 null,3 mix,4 slab (buffers handed out back to back from one block) */
+	unsigned char *slab; size_t slab_used, slab_cap;
 	void *pool[MAXCB]; int pool_esi[MAXCB]; int npool;
 	int **H; int *Hn; int nH;          /* rows as lists of ESIs */
 	void **lasttab;                    /* last table returned by get_source_symbols_tab */
@@ -291,6 +292,15 @@ static void *cb_src(void *ctx, UINT32 size, UINT32 esi)
 	int save = g_in_lib; g_in_lib = 0;
 	dses_t *s = (dses_t *)ctx; void *ret = NULL; int kind = 0;
 	int mode = s->cbmode;
+	if (mode == 4 && s->npool < MAXCB) {
+		/* an application that reassembles the object in one big buffer: consecutive callbacks get adjacent memory */
+		if (!s->slab) { s->slab_cap = (size_t)(s->k ? s->k : 1) * (size ? size : 1); s->slab = malloc(s->slab_cap); memset(s->slab, 0xA5, s->slab_cap); }
+		if (s->slab_used + (size ? size : 1) <= s->slab_cap) {
+			ret = s->slab + s->slab_used; s->slab_used += (size ? size : 1);
+			s->pool[s->npool] = ret; s->pool_esi[s->npool] = (int)esi; s->npool++;
+			kind = 1;
+		}
+	}
 	if (mode == 1 || (mode == 3 && (esi % 2 == 0))) {
 		if (s->npool < MAXCB) {
 			ret = malloc(size ? size : 1);
@@ -401,7 +411,8 @@ static void sess_free_buffers(dses_t *s)
 	if (s->dupbuf) { for (uint32_t i = 0; i < s->n; i++) free(s->dupbuf[i]); free(s->dupbuf); }
 	free(s->nsub);
 	free(s->cw); free(s->have); free(s->enc_tab); free(s->enc_libslot); free(s->lasttab);
-	for (int i = 0; i < s->npool; i++) free(s->pool[i]);
+	for (int i = 0; i < s->npool; i++) if (!s->slab || (unsigned char *)s->pool[i] < s->slab || (unsigned char *)s->pool[i] >= s->slab + s->slab_cap) free(s->pool[i]);
+	free(s->slab);
 	free_H(s->H, s->Hn, s->nH);
 	memset(s, 0, sizeof(*s));
 }
@@ -687,7 +698,7 @@ static void run_line(char *line)
 		int raw = !strcmp(op, "rawparams");
 		cmd_params(sid, AU(1), AU(2), AU(3), AU(4), AU(5), (int32_t)AI(6), (na > 7 && !strcmp(a[7], "rnd")) ? 1 : (na > 7 && !strcmp(a[7], "idr")) ? 2 : 0, (int)AI(8), raw);
 	} else if (!strcmp(op, "cb")) {
-		s->cbmode = !strcmp(a[1], "buf") ? 1 : !strcmp(a[1], "null") ? 2 : !strcmp(a[1], "mix") ? 3 : 0;
+		s->cbmode = !strcmp(a[1], "buf") ? 1 : !strcmp(a[1], "null") ? 2 : !strcmp(a[1], "mix") ? 3 : !strcmp(a[1], "slab") ? 4 : 0;
 		LIB_ENTER(sid);
 		of_status_t st = of_set_callback_functions(s->ses, cb_src, (na > 2 && !strcmp(a[2], "rep")) ? cb_rep : NULL, s);
 		LIB_LEAVE();
